@@ -171,9 +171,28 @@ def c19(ctx):
                        assumptions=LOOP_ASSUME + ["the simulated translating device rewrites the quoted UDP checksum as a real NAT does (recomputed for the translated source) and restores addresses/ports in the quotation"])
 
 
-PROPS = {"C05": c05, "C15": c15, "C19": c19, "C07": c07, "C01": c01, "C03": c03, "C06": c06, "C08": c08, "C09": c09, "C10": c10}
+def c02(ctx):
+    q = ctx.quick()
+    ctx.model("mc/MC_Wire.tla", "MC_Wire.cfg" if q else "MC_Wire_all.cfg", workers=12, timeout=3000)
+    ctx.sim("codec", 560 if q else 14000, LOOP, "MonLoop_C02.cfg", nontrivial=has_noise, conf=CONF)
+    ctx.sim("noise", 100 if q else 2000, LOOP, "MonLoop_C02.cfg", seed_off=1, nontrivial=has_noise, extra_args=[])
+    ctx.write_evidence("model_checking", "model: MC_Wire - Decode(Quote(Encode(p), v)) = p.seq, acceptance, rejection of every foreign variation and injectivity for every supported cell x sequence in the named set x quotation variation; "
+                       "implementation: distinct (cell, quotation form/topology shape) scenarios of the systematic sweep in which genuine and foreign responses were delivered: every genuine response must complete exactly its probe, every foreign one must be a no-op, and the bytes on the wire must equal Wire!Encode",
+                       assumptions=LOOP_ASSUME + ["the byte -> field abstraction is the independent decoder in harness/vh/src/wire.rs (trusted)"])
 
-MONITOR_OF = {"C05": (STATE, "MonState_C05.cfg"), "C15": (STATE, "MonState_C15.cfg"), "C19": (STATE, "MonState_C19.cfg"), "C07": (LOOP, "MonLoop_C07.cfg"), "C01": (LOOP, "MonLoop_C01.cfg"), "C03": (LOOP, "MonLoop_C03.cfg"), "C06": (LOOP, "MonLoop_C06.cfg"),
+
+def c11(ctx):
+    q = ctx.quick()
+    ctx.model("mc/MC_Wire.tla", "MC_Wire.cfg", workers=12)
+    ctx.sim("codec", 840 if q else 14000, LOOP, "MonLoop_C11.cfg", nontrivial=lambda s: s.get("wire", 0) > 0)
+    ctx.write_evidence("model_checking", "model: MC_Wire (the Encode table is the oracle); implementation: distinct (cell, shape) scenarios of the systematic sweep (cell x family x privilege x sizes 28/48..1024 x tos x pattern x boundary initial sequences) with >= 1 datagram on the wire, every datagram decoded by the independent decoder and compared with Wire!Encode",
+                       assumptions=LOOP_ASSUME + ["the byte -> field abstraction (lengths consistent, RFC 1071 sums, pattern) is the independent decoder in harness/vh/src/wire.rs (trusted)",
+                                                  "for sockets without IP_HDRINCL the simulator synthesises the IP/UDP/TCP header a Linux kernel would emit from the recorded socket options"])
+
+
+PROPS = {"C02": c02, "C11": c11, "C05": c05, "C15": c15, "C19": c19, "C07": c07, "C01": c01, "C03": c03, "C06": c06, "C08": c08, "C09": c09, "C10": c10}
+
+MONITOR_OF = {"C02": (LOOP, "MonLoop_C02.cfg"), "C11": (LOOP, "MonLoop_C11.cfg"), "C05": (STATE, "MonState_C05.cfg"), "C15": (STATE, "MonState_C15.cfg"), "C19": (STATE, "MonState_C19.cfg"), "C07": (LOOP, "MonLoop_C07.cfg"), "C01": (LOOP, "MonLoop_C01.cfg"), "C03": (LOOP, "MonLoop_C03.cfg"), "C06": (LOOP, "MonLoop_C06.cfg"),
               "C08": (LOOP, "MonLoop_C08.cfg"), "C09": (LOOP, "MonLoop_C09.cfg"), "C10": (LOOP, "MonLoop_C10.cfg")}
 
 
